@@ -67,6 +67,7 @@ Record cstate := {
   g_delivered : list msg;          (* messages handed to the message callback, in order *)
   g_withheld : list text;          (* lines suppressed as keep-alive replies *)
   g_emitted : bytes;               (* every byte the device emitted *)
+  g_fate : list (text * bool);     (* every line whose fate is decided: (line, delivered?) in order *)
   g_armed : bool                   (* a probe was started (flag set by the sender) since the flag was last cleared *)
 }.
 
@@ -94,7 +95,7 @@ Section Step.
     {| now := 0; q := []; spc_ := SLoop; flag := false; lock := None;
        rxport := []; rbuf := []; rpend := []; rpc_ := RIdle; logcap := cap; logbuf := [];
        g_enq := []; g_deq := []; g_drained := []; g_wire := []; g_log := []; g_lines := [];
-       g_packets := []; g_delivered := []; g_withheld := []; g_emitted := []; g_armed := false |}.
+       g_packets := []; g_delivered := []; g_withheld := []; g_emitted := []; g_fate := []; g_armed := false |}.
 
   Definition set_spc (s : cstate) (p : spc) : cstate :=
     {| now := now s; q := q s; spc_ := p; flag := flag s; lock := lock s; rxport := rxport s;
@@ -102,7 +103,7 @@ Section Step.
        g_enq := g_enq s; g_deq := g_deq s; g_drained := g_drained s; g_wire := g_wire s;
        g_log := g_log s; g_lines := g_lines s; g_packets := g_packets s;
        g_delivered := g_delivered s; g_withheld := g_withheld s; g_emitted := g_emitted s;
-       g_armed := g_armed s |}.
+       g_fate := g_fate s; g_armed := g_armed s |}.
 
   Definition add_log (s : cstate) (e : entry) (p : spc) (r : rpc) : cstate :=
     {| now := now s; q := q s; spc_ := p; flag := flag s; lock := lock s; rxport := rxport s;
@@ -111,7 +112,7 @@ Section Step.
        g_enq := g_enq s; g_deq := g_deq s; g_drained := g_drained s; g_wire := g_wire s;
        g_log := g_log s ++ [e]; g_lines := g_lines s; g_packets := g_packets s;
        g_delivered := g_delivered s; g_withheld := g_withheld s; g_emitted := g_emitted s;
-       g_armed := g_armed s |}.
+       g_fate := g_fate s; g_armed := g_armed s |}.
 
   Fixpoint is_prefix (a b : bytes) : option bytes :=     (* Some rest if b = a ++ rest *)
     match a, b with
@@ -137,7 +138,7 @@ Section Step.
                   g_enq := g_enq s; g_deq := g_deq s; g_drained := g_drained s; g_wire := g_wire s;
                   g_log := g_log s; g_lines := g_lines s; g_packets := g_packets s;
                   g_delivered := g_delivered s; g_withheld := g_withheld s;
-                  g_emitted := g_emitted s; g_armed := g_armed s |}
+                  g_emitted := g_emitted s; g_fate := g_fate s; g_armed := g_armed s |}
         else None
     | Enq _ i =>
         Some {| now := now s; q := q s ++ [i]; spc_ := spc_ s; flag := flag s; lock := lock s;
@@ -146,7 +147,7 @@ Section Step.
                 g_enq := g_enq s ++ [i]; g_deq := g_deq s; g_drained := g_drained s;
                 g_wire := g_wire s; g_log := g_log s; g_lines := g_lines s;
                 g_packets := g_packets s; g_delivered := g_delivered s;
-                g_withheld := g_withheld s; g_emitted := g_emitted s; g_armed := g_armed s |}
+                g_withheld := g_withheld s; g_emitted := g_emitted s; g_fate := g_fate s; g_armed := g_armed s |}
     | EDeq i =>
         match q s with
         | h :: r =>
@@ -157,7 +158,7 @@ Section Step.
                       g_enq := g_enq s; g_deq := g_deq s; g_drained := g_drained s ++ [h];
                       g_wire := g_wire s; g_log := g_log s; g_lines := g_lines s;
                       g_packets := g_packets s; g_delivered := g_delivered s;
-                      g_withheld := g_withheld s; g_emitted := g_emitted s; g_armed := g_armed s |}
+                      g_withheld := g_withheld s; g_emitted := g_emitted s; g_fate := g_fate s; g_armed := g_armed s |}
             else None
         | [] => None
         end
@@ -170,7 +171,7 @@ Section Step.
                     g_enq := g_enq s; g_deq := g_deq s; g_drained := g_drained s; g_wire := g_wire s;
                     g_log := g_log s; g_lines := g_lines s; g_packets := g_packets s;
                     g_delivered := g_delivered s; g_withheld := g_withheld s;
-                    g_emitted := g_emitted s; g_armed := g_armed s |}
+                    g_emitted := g_emitted s; g_fate := g_fate s; g_armed := g_armed s |}
         | Some _ => None
         end
     | EUnlock tid =>
@@ -183,7 +184,7 @@ Section Step.
                       g_enq := g_enq s; g_deq := g_deq s; g_drained := g_drained s;
                       g_wire := g_wire s; g_log := g_log s; g_lines := g_lines s;
                       g_packets := g_packets s; g_delivered := g_delivered s;
-                      g_withheld := g_withheld s; g_emitted := g_emitted s; g_armed := g_armed s |}
+                      g_withheld := g_withheld s; g_emitted := g_emitted s; g_fate := g_fate s; g_armed := g_armed s |}
             else None
         | _ => None
         end
@@ -203,7 +204,7 @@ Section Step.
                       g_enq := g_enq s; g_deq := g_deq s ++ [h]; g_drained := g_drained s;
                       g_wire := g_wire s; g_log := g_log s; g_lines := g_lines s;
                       g_packets := g_packets s; g_delivered := g_delivered s;
-                      g_withheld := g_withheld s; g_emitted := g_emitted s; g_armed := g_armed s |}
+                      g_withheld := g_withheld s; g_emitted := g_emitted s; g_fate := g_fate s; g_armed := g_armed s |}
             else None
         | _, _ => None
         end
@@ -221,7 +222,7 @@ Section Step.
                     g_enq := g_enq s ++ [IKA]; g_deq := g_deq s; g_drained := g_drained s;
                     g_wire := g_wire s; g_log := g_log s; g_lines := g_lines s;
                     g_packets := g_packets s; g_delivered := g_delivered s;
-                    g_withheld := g_withheld s; g_emitted := g_emitted s; g_armed := g_armed s |}
+                    g_withheld := g_withheld s; g_emitted := g_emitted s; g_fate := g_fate s; g_armed := g_armed s |}
         | _ => None
         end
     | SSetFlag =>
@@ -233,7 +234,7 @@ Section Step.
                     g_enq := g_enq s; g_deq := g_deq s; g_drained := g_drained s;
                     g_wire := g_wire s; g_log := g_log s; g_lines := g_lines s;
                     g_packets := g_packets s; g_delivered := g_delivered s;
-                    g_withheld := g_withheld s; g_emitted := g_emitted s; g_armed := true |}
+                    g_withheld := g_withheld s; g_emitted := g_emitted s; g_fate := g_fate s; g_armed := true |}
         | _ => None
         end
     | SLogAdd t =>
@@ -256,7 +257,7 @@ Section Step.
                     g_enq := g_enq s; g_deq := g_deq s; g_drained := g_drained s; g_wire := g_wire s;
                     g_log := g_log s; g_lines := g_lines s; g_packets := g_packets s;
                     g_delivered := g_delivered s; g_withheld := g_withheld s;
-                    g_emitted := g_emitted s; g_armed := g_armed s |}
+                    g_emitted := g_emitted s; g_fate := g_fate s; g_armed := g_armed s |}
         | _, _ => None
         end
     | SWriteA b =>
@@ -270,7 +271,7 @@ Section Step.
                       g_wire := g_wire s ++ [(now s, i)];
                       g_log := g_log s; g_lines := g_lines s; g_packets := g_packets s;
                       g_delivered := g_delivered s; g_withheld := g_withheld s;
-                      g_emitted := g_emitted s; g_armed := g_armed s |}
+                      g_emitted := g_emitted s; g_fate := g_fate s; g_armed := g_armed s |}
             else None
         | _ => None
         end
@@ -284,7 +285,7 @@ Section Step.
                     g_enq := g_enq s; g_deq := g_deq s; g_drained := g_drained s; g_wire := g_wire s;
                     g_log := g_log s; g_lines := g_lines s; g_packets := g_packets s;
                     g_delivered := g_delivered s; g_withheld := g_withheld s;
-                    g_emitted := g_emitted s; g_armed := g_armed s |}
+                    g_emitted := g_emitted s; g_fate := g_fate s; g_armed := g_armed s |}
         | _ => None
         end
     | SLockRel =>
@@ -296,7 +297,7 @@ Section Step.
                     g_enq := g_enq s; g_deq := g_deq s; g_drained := g_drained s; g_wire := g_wire s;
                     g_log := g_log s; g_lines := g_lines s; g_packets := g_packets s;
                     g_delivered := g_delivered s; g_withheld := g_withheld s;
-                    g_emitted := g_emitted s; g_armed := g_armed s |}
+                    g_emitted := g_emitted s; g_fate := g_fate s; g_armed := g_armed s |}
         | _, _ => None
         end
     | SSleepStartA d =>
@@ -320,7 +321,7 @@ Section Step.
                     g_enq := g_enq s; g_deq := g_deq s; g_drained := g_drained s; g_wire := g_wire s;
                     g_log := g_log s; g_lines := g_lines s; g_packets := g_packets s;
                     g_delivered := g_delivered s; g_withheld := g_withheld s;
-                    g_emitted := g_emitted s; g_armed := g_armed s |}
+                    g_emitted := g_emitted s; g_fate := g_fate s; g_armed := g_armed s |}
         | _, _, _ => None
         end
     | RLineStart l =>
@@ -334,7 +335,7 @@ Section Step.
                       g_wire := g_wire s; g_log := g_log s; g_lines := g_lines s ++ [l];
                       g_packets := g_packets s ++ [p];
                       g_delivered := g_delivered s; g_withheld := g_withheld s;
-                      g_emitted := g_emitted s; g_armed := g_armed s |}
+                      g_emitted := g_emitted s; g_fate := g_fate s; g_armed := g_armed s |}
             else None
         | _, _ => None
         end
@@ -357,30 +358,30 @@ Section Step.
                           g_wire := g_wire s; g_log := g_log s; g_lines := g_lines s;
                           g_packets := g_packets s; g_delivered := g_delivered s;
                           g_withheld := g_withheld s; g_emitted := g_emitted s;
-                          g_armed := g_armed s |}
+                          g_fate := g_fate s; g_armed := g_armed s |}
                 else None
             | None => None
             end
         | _ => None
         end
     | RClrFlag =>
-        let clr (r : rpc) (w : list text) :=
+        let clr (r : rpc) (w : list text) (ft : list (text * bool)) :=
           Some {| now := now s; q := q s; spc_ := spc_ s; flag := false; lock := lock s;
                   rxport := rxport s; rbuf := rbuf s; rpend := rpend s; rpc_ := r;
                   logcap := logcap s; logbuf := logbuf s;
                   g_enq := g_enq s; g_deq := g_deq s; g_drained := g_drained s; g_wire := g_wire s;
                   g_log := g_log s; g_lines := g_lines s; g_packets := g_packets s;
                   g_delivered := g_delivered s; g_withheld := w;
-                  g_emitted := g_emitted s; g_armed := false |} in
+                  g_emitted := g_emitted s; g_fate := ft; g_armed := false |} in
         match rpc_ s with
-        | RFlag l true => clr RIdle (g_withheld s ++ [l])
-        | RFlag l false => clr (RDeliver l) (g_withheld s)
+        | RFlag l true => clr RIdle (g_withheld s ++ [l]) (g_fate s ++ [(l, false)])
+        | RFlag l false => clr (RDeliver l) (g_withheld s) (g_fate s)
         | RLogged l =>
             match parse_sfv l with
-            | None => clr (RDeliver l) (g_withheld s)      (* no match: the flag is not read *)
+            | None => clr (RDeliver l) (g_withheld s) (g_fate s)   (* no match: the flag is not read *)
             | Some _ => None
             end
-        | RIdle => clr RIdle (g_withheld s)                (* connection_made *)
+        | RIdle => clr RIdle (g_withheld s) (g_fate s)            (* connection_made *)
         | _ => None
         end
     | RDeliverA m =>
@@ -400,7 +401,8 @@ Section Step.
                       g_enq := g_enq s; g_deq := g_deq s; g_drained := g_drained s;
                       g_wire := g_wire s; g_log := g_log s; g_lines := g_lines s;
                       g_packets := g_packets s; g_delivered := g_delivered s ++ [parse_line l];
-                      g_withheld := g_withheld s; g_emitted := g_emitted s; g_armed := g_armed s |}
+                      g_withheld := g_withheld s; g_emitted := g_emitted s;
+                      g_fate := g_fate s ++ [(l, true)]; g_armed := g_armed s |}
             else None
         | _ => None
         end
@@ -413,7 +415,7 @@ Section Step.
                   g_enq := g_enq s; g_deq := g_deq s; g_drained := g_drained s; g_wire := g_wire s;
                   g_log := g_log s; g_lines := g_lines s; g_packets := g_packets s;
                   g_delivered := g_delivered s; g_withheld := g_withheld s;
-                  g_emitted := g_emitted s ++ b; g_armed := g_armed s |}
+                  g_emitted := g_emitted s ++ b; g_fate := g_fate s; g_armed := g_armed s |}
         else None
     end.
 
